@@ -283,9 +283,10 @@ PQ(p, q) == ("p" :> p) @@ ("q" :> q)
 Layouts == <<
     \* one segment
     << [pars |-> PQ(7, 11), rows |-> <<Row(0, 2, 3), Row(1, 3, 0), Row(2, 1, 4)>>] >>,
-    \* two segments, both parameters change
+    \* two segments, both parameters change; the switch point t = 2 is stored in BOTH (last row of the first,
+    \* first row of the second: same state, other parameters), as results built directly with Simulation(...) may
     << [pars |-> PQ(7, 11), rows |-> <<Row(0, 2, 3), Row(1, 3, 0), Row(2, 1, 4)>>],
-       [pars |-> PQ(5, 13), rows |-> <<Row(3, 0, 4), Row(5, 4, 1)>>] >>,
+       [pars |-> PQ(5, 13), rows |-> <<Row(2, 1, 4), Row(5, 4, 1)>>] >>,
     \* three segments (2 + 1 + 3 rows), the last one back to the first one's p
     << [pars |-> PQ(3, 11), rows |-> <<Row(0, 2, 3), Row(2, 5, 1)>>],
        [pars |-> PQ(3, 2),  rows |-> <<Row(3, 1, 1)>>],
